@@ -44,6 +44,18 @@ def r1(ctx: Ctx) -> None:
         ok = len(st) == 1 and length is not None and poly_of(strip_ver(st[0].value)) == poly_of(("bin", "+", G, strip_ver(length)))
         ctx.check(ok, f, f.node, "regeneration point advances by the length handed to the generator", "_generated_until += length", "; ".join(short(e.value) for e in st))
         lps = loops(p)
+        if len(lps) > 1:
+            # besides the pass over the regenerated markets: loops that only compute are nobody's business; a loop
+            # that changes the generator's state (parameters applied on the way, schedules consumed) is an extension
+            # of the mechanism this rule does not model
+            passes = [l for l in lps if _is_call(strip_ver(l.iter), "zip")]
+            extra = [l for l in lps if l not in passes]
+            touching = [l for l in extra if any(e.kind in ("store", "del") or (e.kind == "call" and e.data.get("mutates") is not None and key(strip_ver(e.data["mutates"])).startswith("self.")) for bp in l.paths for e in bp.walk_events())]
+            if touching:
+                ctx.unrec(f, touching[0].node, "regeneration is one pass that assigns the generated series", "another loop of the function changes state of the generator (" + short(touching[0].iter)[:80] + "): what that does to already generated prices is not decided")
+                continue
+            if len(passes) == 1:
+                lps = passes
         ctx.check(len(lps) == 1, f, f.node, "one pass over the regenerated markets", "1 loop", str(len(lps)))
         for l in lps:
             it = strip_ver(l.iter)
